@@ -207,9 +207,9 @@ func H_C20_redelegations() {
 	nd.Assert(id+".count", len(got) == n)
 }
 
-// H_C20_balance: the balance reported by the delegation query is what can be undelegated now:
+// H_C20_balance_Q (ideal-Q: the claim is about values, decided over the reals): the balance reported by the delegation query is what can be undelegated now:
 // Undelegate(balance) succeeds and Undelegate(balance+1) fails.
-func H_C20_balance() {
+func H_C20_balance_Q() {
 	id := "C20.balance"
 	more := nd.Choice("plusone", 2)
 	st := Build(shapeActor("shape"), Opts{})
@@ -228,6 +228,9 @@ func H_C20_balance() {
 	exact := types.ConvertNewShareToDecToken(av0.TotalTokensWithAsset(asset), av0.TotalDelegationSharesWithDenom(Denoms[0]), del.Shares)
 	if math.LegacyNewDecFromInt(balance).GT(exact) {
 		nd.Tag("balance-rounded-up")
+	}
+	if av0.TotalDelegationSharesWithDenom(Denoms[0]).TruncateInt().IsZero() {
+		nd.Tag("tds-below-one") // GetDelegationSharesFromTokens prices shares 1:1 when the validator's delegator shares truncate to zero
 	}
 	tagLiveness(e, 0)
 	hintUnitPrices(st)
@@ -286,4 +289,65 @@ func H_C20_bind() {
 	if qerr == nil {
 		nd.Assert(id+".balance", dr.Amount == res.Delegation.Balance.Amount.String())
 	}
+}
+
+// H_C20_delegations: the delegation list queries (by delegator, by delegator+validator, all)
+// return exactly the delegator's primary records, each once, and every row's balance equals
+// the single-record delegation query's balance for that position.
+func H_C20_delegations() {
+	id := "C20.delegations"
+	which := nd.Choice("query", 3)
+	ps := []Pos{{0, 0, 0}, {0, 1, 0}, {1, 1, 0}, {0, 0, 1}}
+	st := Build(ps, Opts{NDenoms: 2})
+	e := st.E
+	qs := keeper.NewQueryServerImpl(e.K)
+	var got []types.DelegationResponse
+	var err error
+	nd.Reach(id)
+	ok := NoPanic(id, func() {
+		switch which {
+		case 0:
+			var r *types.QueryAlliancesDelegationsResponse
+			r, err = qs.AlliancesDelegation(e.Ctx, &types.QueryAlliancesDelegationsRequest{DelegatorAddr: Dels[0].String()})
+			if r != nil {
+				got = r.Delegations
+			}
+		case 1:
+			var r *types.QueryAlliancesDelegationsResponse
+			r, err = qs.AlliancesDelegationByValidator(e.Ctx, &types.QueryAlliancesDelegationByValidatorRequest{DelegatorAddr: Dels[0].String(), ValidatorAddr: Vals[0].String()})
+			if r != nil {
+				got = r.Delegations
+			}
+		case 2:
+			var r *types.QueryAlliancesDelegationsResponse
+			r, err = qs.AllAlliancesDelegations(e.Ctx, &types.QueryAllAlliancesDelegationsRequest{})
+			if r != nil {
+				got = r.Delegations
+			}
+		}
+	})
+	if !ok {
+		return
+	}
+	nd.Assert(id+".ok", err == nil)
+	n := 0
+	for _, p := range ps {
+		if (which == 0 && p.D != 0) || (which == 1 && (p.D != 0 || p.V != 0)) {
+			continue
+		}
+		n++
+		single, serr := qs.AllianceDelegation(e.Ctx, &types.QueryAllianceDelegationRequest{DelegatorAddr: Dels[p.D].String(), ValidatorAddr: Vals[p.V].String(), Denom: Denoms[p.A]})
+		hits := 0
+		for _, g := range got {
+			if g.Delegation.DelegatorAddress == Dels[p.D].String() && g.Delegation.ValidatorAddress == Vals[p.V].String() && g.Delegation.Denom == Denoms[p.A] {
+				hits++
+				if serr == nil {
+					nd.Assert(id+".balance", nd.And(g.Balance.Denom == Denoms[p.A], g.Balance.Amount.Equal(single.Delegation.Balance.Amount),
+						g.Delegation.Shares.Equal(single.Delegation.Delegation.Shares)))
+				}
+			}
+		}
+		nd.Assert(id+".once", hits == 1)
+	}
+	nd.Assert(id+".count", len(got) == n)
 }
